@@ -756,3 +756,24 @@ silent("C08", "solid harmonics: constant pulled out of the root",
        ("sub", "utils.py", "np.sqrt(4.0 * np.pi / (2 * degrees[:, None] + 1))", "2.0 * np.sqrt(np.pi / (2 * degrees[:, None] + 1))"))
 silent("C08", "conversion with unpacked components",
        ("sub", "utils.py", "    theta = np.arctan2(relat_pts[:, 1], relat_pts[:, 0])\n", "    x_rel, y_rel, _ = relat_pts.T\n    theta = np.arctan2(y_rel, x_rel)\n"))
+
+# ------------------------------------------------------------------------------------------ C14 R7 / R8
+fire("C14", "Cartesian moments without the quadrature weights", "R7.entries-are-quadratures/basegrid.Grid.moments/cartesian",
+     ("sub", "basegrid.py", "                integral = np.einsum(\"ln,n,n->l\", cent_pts_with_order, func_vals, self.weights)\n            elif type_mom in",
+      "                integral = np.einsum(\"ln,n->l\", cent_pts_with_order, func_vals)\n            elif type_mom in"))
+fire("C14", "every centre uses the first centre", "R7.entries-are-quadratures/basegrid.Grid.moments",
+     ("sub", "basegrid.py", "            centered_pts = self.points - center\n", "            centered_pts = self.points - centers[0]\n"))
+fire("C14", "pure-radial: row of positive orders off by one", "R7.entries-are-quadratures/basegrid.Grid.moments/pure-radial",
+     ("sub", "basegrid.py", "indices[m_orders > 0] += 2 * m_orders[m_orders > 0] - 1", "indices[m_orders > 0] += 2 * m_orders[m_orders > 0]"))
+fire("C14", "radial moments with the exponent shifted", "R7.entries-are-quadratures/basegrid.Grid.moments/radial",
+     ("sub", "basegrid.py", "cent_pts_with_order ** np.ravel(all_orders)[:, None]", "cent_pts_with_order ** (np.ravel(all_orders)[:, None] + 1)"))
+fire("C14", "dipole: electronic part added instead of subtracted", "R8.dipole-assembly/utils.dipole_moment_of_molecule/nuclear-minus-electronic",
+     ("sub", "utils.py", "    result = (result - integrals.T).flatten()[1:]\n", "    result = (result + integrals.T).flatten()[1:]\n"))
+fire("C14", "dipole about the centre of charge", "R8.dipole-assembly/utils.dipole_moment_of_molecule/centre-of-mass",
+     ("sub", "utils.py", "    masses = np.array([isotopic_masses[charge] for charge in charges])\n", "    masses = np.array([float(charge) for charge in charges])\n"))
+silent("C14", "solid harmonics of all centres in one batch, reshaped centre-major",
+       ("sub", "basegrid.py", "        integrals = []\n        for center in centers:\n", "        if type_mom in (\"pure\", \"pure-radial\"):\n            all_centered_pts = self.points[None, :, :] - centers[:, None, :]\n            all_solid_harm = solid_harmonics(orders[-1], convert_cart_to_sph(all_centered_pts.reshape(-1, dim)))\n            all_solid_harm = all_solid_harm.reshape(-1, len(centers), self.points.shape[0])\n        integrals = []\n        for i_center, center in enumerate(centers):\n"),
+       ("sub", "basegrid.py", "                    sph_pts = convert_cart_to_sph(centered_pts)\n                    solid_harm = solid_harmonics(orders[-1], sph_pts)\n", "                    solid_harm = all_solid_harm[:, i_center, :]\n"))
+silent("C14", "Cartesian contraction as a weighted sum",
+       ("sub", "basegrid.py", "                integral = np.einsum(\"ln,n,n->l\", cent_pts_with_order, func_vals, self.weights)\n            elif type_mom in",
+        "                integral = np.sum(cent_pts_with_order * (func_vals * self.weights), axis=1)\n            elif type_mom in"))
